@@ -20,6 +20,11 @@ ASSUMPTIONS = [
     "global clause expectation = last-writer-wins over all issued operations, i.e. the outcome of the never-purging cluster",
     "(V) every purge handled by a keyspace actor of the real nodes during the cluster replays (and, thorough tier, during the repository's own "
     "test suites run with the hooks on) is validated against Trace_KeyspaceActor.tla: a purge changes nothing that is live",
+    "long-lived actors (V): single real keyspace actors handle long random request streams (both sources, three origins, bulk requests, purges, storage "
+    "calls failing part-way, a clock that jumps by more than the forgiveness period, late and too-old requests, the motif delete - purge - older write); what "
+    "an actor keeps between requests stays in it; Trace_KeyspaceActor.tla judges the recorded events, the harness compares set and storage after every request",
+    "deletes stay deleted at actor level: while every request reaches the actor less than the forgiveness period after the newest stamp it has been handed, "
+    "no document is live at a stamp older than a delete the set has held for it - whatever was purged, however a failed purge was put back",
 ]
 
 
@@ -48,6 +53,8 @@ def run(ctx):
     cov["global"] = {k: gcov[k] for k in ("exhaustive_configs", "simulated_configs", "drift_behaviours")}
     cov["global"]["purge_steps_replayed"] = purges
     cov["global"]["time_steps_replayed"] = ticks
+    cov["long_lived_actors"] = actor_traces.long_lived_actors(ctx, ["C08"])
+    cov["traces_validated_against_impl"] += cov["long_lived_actors"]["actors"]
     if ctx.tier == "thorough":
         cov["own_tests_actor_traces"] = actor_traces.run_repo_tests(ctx, ["C08"])
     return vlib.finish(ctx, "model_checking", cov, ASSUMPTIONS)
